@@ -46,6 +46,13 @@ Decided here are structural clauses that are genuine necessary conditions of it 
            duration (function-local static, namespace scope); thread_local / atomic / mutex state is not decided;
            positive example in witness/c18_param_order.cpp.
 
+Equivalent shapes: running indices of a loop (dst = where; ...; dst++ next to src++) are rewritten in terms of the
+loop index before distances are compared; vector::assign(first, last) stands for the push_back loop; an iterator loop
+`for (it = c.begin() [++]; it != c.end(); ++it)` for an index loop; emplace_back(s, pos, n) / std::string(s, pos, n)
+for push_back(s.substr(pos, n)); std::find_if over rbegin()..rend() with the name predicate for "last match",
+over begin()..end() for "first match" (accepted only if the constructor stores one entry per name); std::any_of for
+hasParam.  Floors count tokeniser functions, not push sites.
+
 Helpers: file-local / private helpers are followed with parameters mapped (FileName position helpers are
 summarised into the typestate, a prefix-length index loop stands for std::mismatch, a lookup helper that scans
 from the back and returns the first hit stands for last-duplicate-wins, name=value cutting may live in a helper).
@@ -217,6 +224,9 @@ class FnX(Normalizer):
                 continue
             if top_const(v['ct']) and not v['param']:
                 continue        # a const local has its initialiser as only definition
+            if v['param'] and (v['ct'] or '').startswith('const ') and (v['ct'] or '').rstrip().endswith('&') and \
+                    '*' not in (v['ct'] or '').split('<')[0]:
+                continue        # reference-to-const parameter: cannot be modified through this name
             p = tu.par(n)
             while p is not None and p.get('kind') == 'ParenExpr':
                 n, p = p, tu.par(p)
@@ -246,6 +256,8 @@ class FnX(Normalizer):
                 continue        # copies an lvalue argument
             if pk == 'LambdaExpr':
                 continue        # capture: the uses inside the lambda body are visited like any other use
+            if pk == 'CXXMemberCallExpr' and last_name(tu.sd(p).get('q')) in ('emplace_back', 'emplace') and is_int_ct(v['ct']):
+                continue        # forwarded to a constructor that takes the number by value
             v['escaped'] = True
 
     def var_of(self, e):
@@ -626,19 +638,33 @@ class TokenFn:
                 continue
             s, obj, args = tu.call_parts(n)
             q = s.get('q') or ''
-            if not q.startswith('std::vector<') or last_name(q) not in ('push_back', 'emplace_back') or len(args) != 1:
+            if not q.startswith('std::vector<') or last_name(q) not in ('push_back', 'emplace_back') or not args:
                 continue
             if 'basic_string' not in q:
                 continue
-            yield n, obj, args[0], (b.id, i)
+            if len(args) != 1 and not (last_name(q) == 'emplace_back' and len(args) in (2, 3)):
+                continue
+            yield n, obj, (args[0] if len(args) == 1 else list(args)), (b.id, i)
 
     def token(self, arg, at):
         """describe the pushed token:
            ('substr', srckey, p, [(extra_conds, n or None)], call) | ('getline', var id, call) | None"""
         tu = self.tu
         x = self.x
+        if isinstance(arg, list):
+            # emplace_back(source, pos[, n]) constructs source.substr(pos[, n]) in place
+            if 'basic_string' in (tu.sd(tu.strip(arg[0], casts=True)).get('ct') or ''):
+                return self._substr(arg[0], arg[1:], tu.strip(arg[0]), None, at)
+            return None
         e = x.peel(arg)
         alias = None
+        if e is not None and e.get('kind') in ('CXXConstructExpr', 'CXXTemporaryObjectExpr') and \
+                (tu.sd(e).get('q') or '').startswith('std::basic_string<'):
+            ks = [y for y in tu.kids(e) if y.get('kind') != 'CXXDefaultArgExpr' or tu.sd(y).get('cv')]
+            ks = [y for y in ks if 'allocator' not in (tu.sd(y).get('ct') or '')]
+            if len(ks) in (2, 3) and 'basic_string' in (tu.sd(tu.strip(ks[0], casts=True)).get('ct') or '') and \
+                    is_int_ct(tu.sd(tu.strip(ks[1], casts=True)).get('ct') or tu.sd(ks[1]).get('ct')):
+                return self._substr(ks[0], ks[1:], e, None, at)
         d, v = x.var_of(e)
         if d is not None:
             # a local string: either filled by getline or a named copy of the token
@@ -658,6 +684,11 @@ class TokenFn:
         s, obj, args = tu.call_parts(e)
         if not (s.get('q') or '').startswith('std::basic_string<') or last_name(s.get('q')) != 'substr':
             return None
+        return self._substr(obj, args, e, alias, at)
+
+    def _substr(self, obj, args, e, alias, at):
+        tu = self.tu
+        x = self.x
         src = x.objkey(obj)
         if not args:
             return None
@@ -689,9 +720,11 @@ def check_tokens(ctx, tu, qnames):
     ctx.describe(R7, 'tokenizer loop shape: token = [start, found delimiter), the search for the delimiter starts at the '
                      'token start, the next token starts right behind the delimiter')
     n2 = n7 = 0
+    nf = 0
     for q in qnames:
         fs = [f for f in tu.fns(q=q) if not f['dep'] and tu.cfg(f) is not None]
         for f in fs:
+            before = n2
             tf = TokenFn(tu, f)
             x = tf.x
             file = tu.fn_file(f)
@@ -721,10 +754,12 @@ def check_tokens(ctx, tu, qnames):
                                  alias, at, loc, rest_len=Poly.atom(('size', src)) - p)
                     check_extent(ctx, tu, tf, R7, inst, '%s|%s|%s|%s' % (R7, file, fname, kind), call, pos, extra, src, p,
                                  n, at, loc)
+            if n2 > before:
+                nf += 1
             n7 += check_delim_class(ctx, tu, tf, f, sig, file, fname, R7)
             for opt in sorted(getattr(x, 'option_notes', ())):
                 ctx.note('%s: analysed with option `%s` off (the clause with the option on is not decided)' % (fname, opt))
-    return n2, n7
+    return n2, n7, nf
 
 
 SET_SEARCH = ('find_first_of', 'find_first_not_of', 'find_last_of', 'find_last_not_of')
@@ -1948,6 +1983,52 @@ class CountLoop:
                     st.append(p)
         return bw
 
+    def running(self, use_pos):
+        """{atom: Poly in terms of the loop index} for further running indices of the loop: locals that are set once before
+        the loop and stepped by a constant exactly once per iteration, behind the position that uses them
+        (dst = where; ...; dst++  together with  src++  gives  dst == where + (src - src0))"""
+        x = self.x
+        tu = x.tu
+        g = x.g
+        out = {}
+        if not self.ok or self.step in (None, 0):
+            return out
+
+        def after_use(pos):
+            # the step is executed once per iteration and the use cannot be reached from it without passing the header
+            if not self.once_per_iteration(pos):
+                return False
+            if pos[0] == use_pos[0]:
+                return pos[1] > use_pos[1]
+            return use_pos[0] not in _reach_blocks(g, pos[0], stop=self.header) or use_pos[0] == self.header
+        if not after_use(self.inc_pos):
+            return out
+        for d, v in x.vars.items():
+            a = ('var', d, v['name'])
+            if a == self.ivar or v['param'] or v['escaped'] or not is_int_ct(v['ct']):
+                continue
+            ins = [df for df in v['defs'] if df[2] and (df[2][0] in self.body or df[2][0] == self.header)]
+            outs = [df for df in v['defs'] if not (df[2] and (df[2][0] in self.body or df[2][0] == self.header))]
+            if len(ins) != 1 or len(outs) != 1 or outs[0][0] != 'init' or outs[0][1] is None:
+                continue
+            kind, node, pos = ins[0]
+            st = None
+            if kind == 'inc':
+                st = 1 if node.get('opcode') == '++' else -1
+            elif kind == 'compound' and node.get('opcode') in ('+=', '-='):
+                c = x.poly_at(tu.kids(node)[1], pos).as_int()
+                if c is not None:
+                    st = c if node['opcode'] == '+=' else -c
+            if st is None or not after_use(pos):
+                continue
+            init = x.poly_at(outs[0][1], outs[0][2])
+            if a in init.atoms(deep=True) or self.ivar in init.atoms(deep=True):
+                continue
+            # the initial value must still hold when the loop is entered: no other definition (checked above)
+            k = (Poly.atom(self.ivar) - self.init) * Fraction(1, self.step)
+            out[a] = init + k * st
+        return out
+
     def once_per_iteration(self, pos):
         """the element at pos is executed on every path from the loop entry back to the header"""
         g = self.x.g
@@ -1967,6 +2048,96 @@ class CountLoop:
                     seen.add(s)
                     st.append(s)
         return True
+
+
+class IterLoop:
+    """for (it = c.begin() [+ steps]; it != c.end(); ++it): an iterator walked forward over a whole container.
+    Duck-types the parts of CountLoop that the per-token check needs; token indices are counted in increments of `it`."""
+
+    def __init__(self, x, header):
+        self.x = x
+        self.header = header
+        self.ok = False
+        self.why = ''
+        tu, g = x.tu, x.g
+        self.body = CountLoop._body_blocks(self)
+        hb = g.blocks[header]
+        c = tu.strip(deciding_cond(tu, hb, g), casts=True)
+        self.cond = c
+        self.step = 1
+        self.ascending_test = True
+        if c is None or c.get('kind') != 'CXXOperatorCallExpr' or last_name(tu.sd(c).get('q')) != 'operator!=':
+            self.why = 'loop condition `%s` is neither an ordering comparison nor `it != container.end()`' % (tu.show(c) if c else '?')
+            return
+        ks = tu.kids(c)[1:]
+        itv = [x.var_of(y)[0] for y in ks if x.var_of(y)[0] is not None]
+        ends = []
+        for y in ks:
+            e = x.peel(y)
+            if e is not None and e.get('kind') == 'CXXMemberCallExpr' and last_name(tu.sd(e).get('q')) in ('end', 'cend'):
+                ends.append(x.objkey(tu.call_parts(e)[1]))
+        if len(itv) != 1 or len(ends) != 1:
+            self.why = 'loop condition `%s` does not compare an iterator with end()' % tu.show(c)
+            return
+        self.it = itv[0]
+        self.container = ends[0]
+        v = x.vars[self.it]
+        init = v.get('init')
+        e = x.peel(init) if init is not None else None
+        if e is None or e.get('kind') != 'CXXMemberCallExpr' or last_name(tu.sd(e).get('q')) not in ('begin', 'cbegin') or \
+                x.objkey(tu.call_parts(e)[1]) != self.container:
+            self.why = 'the iterator `%s` does not start at begin() of the container it is compared with' % v['name']
+            return
+        self.init_pos = v['defs'][0][2] if v['defs'] else x.pos_of(init)
+        # every modification of the iterator: ++it / it++ only
+        self.incs = []
+        body = tu.body(x.f)
+        for n in tu.walk(body):
+            if n.get('kind') == 'DeclRefExpr' and n.get('referencedDecl', {}).get('id') == self.it:
+                p = tu.par(n)
+                while p is not None and p.get('kind') in ('ParenExpr',):
+                    p = tu.par(p)
+                pk = p.get('kind') if p else None
+                if pk == 'ImplicitCastExpr' and p.get('castKind') in ('LValueToRValue', 'NoOp'):
+                    continue
+                if pk == 'CXXOperatorCallExpr' and last_name(tu.sd(p).get('q')) == 'operator++':
+                    self.incs.append((p, x.pos_of(p)))
+                    continue
+                if pk == 'CXXOperatorCallExpr' and last_name(tu.sd(p).get('q')) in ('operator*', 'operator->', 'operator!=', 'operator=='):
+                    continue
+                if pk == 'VarDecl':
+                    continue
+                self.why = 'the iterator `%s` is used in `%s`' % (v['name'], tu.show(p) if p else '?')
+                return
+        inside = [i for i in self.incs if i[1] and i[1][0] in self.body]
+        if len(inside) != 1 or not self.once_per_iteration(inside[0][1]):
+            self.why = 'the iterator is not advanced exactly once per iteration'
+            return
+        self.inc_pos = inside[0][1]
+        hpos = (header, 0)
+        pre = [i for i in self.incs if i not in inside]
+        if any(not g.dominates(i[1], hpos) for i in pre):
+            self.why = 'the iterator is advanced before the loop on some paths only'
+            return
+        self.first_index = len(pre)
+        self.pre = pre
+        self.ok = True
+
+    once_per_iteration = CountLoop.once_per_iteration
+
+    def index_at(self, pos):
+        """number of increments executed before position pos (outside the loop): the token index `*it` designates there;
+        None if some increment is executed before pos on some paths only"""
+        g = self.x.g
+        k = 0
+        for n, p in self.pre:
+            if p == pos:
+                return None
+            if g.dominates(p, pos):
+                k += 1
+            elif not g.dominates(pos, p):
+                return None
+        return k
 
 
 def loops_of(x):
@@ -2042,15 +2213,23 @@ def check_remove_args(ctx, tu):
             und.append('the copy is not within the argument vector parameter')
         d = x.poly_at(li, pos)
         s_ = x.poly_at(ri, pos)
+        run_ = lp.running(pos)
+        if run_:
+            d, s_ = d.subst(run_), s_.subst(run_)
         if not lp.once_per_iteration(pos) or not lp.once_per_iteration(lp.inc_pos):
             und.append('the copy or the increment is not executed exactly once per iteration')
         if lp.step != 1 or not lp.ascending_test:
             bad.append(('direction', 'the shift loop must walk upwards by 1 (step %s, test `%s`): copying downwards '
                         'overwrites sources before they are read' % (lp.step, tu.show(lp.cond))))
         else:
-            if (s_ - d) != HM:
-                bad.append(('shift-distance', '`%s`: source index minus destination index is `%s`, expected `%s`'
-                            % (tu.show(nd), (s_ - d).show(), HM.show())))
+            dist = s_ - d
+            if dist != HM:
+                locals_ = [a for a in dist.atoms(deep=True) if isinstance(a, tuple) and a[0] == 'var' and a[1] not in x.params]
+                if locals_:
+                    und.append('cannot express the distance `%s` between source and destination index by the parameters' % dist.show())
+                else:
+                    bad.append(('shift-distance', '`%s`: source index minus destination index is `%s`, expected `%s`'
+                                % (tu.show(nd), dist.show(), HM.show())))
             off = s_ - Poly.atom(lp.ivar)
             if lp.ivar in off.atoms(deep=True):
                 und.append('source index `%s` is not index + constant' % s_.show())
@@ -2187,6 +2366,45 @@ def check_arglist(ctx, tu):
         AC = Poly.atom(('var', ps[0]['id'], ps[0]['name']))
         hs = loops_of(x)
         pushes = list(calls_in(x, ('push_back', 'emplace_back'), 'std::vector<'))
+        assigns = list(calls_in(x, ('assign', 'insert'), 'std::vector<'))
+        if not hs and not pushes and len(assigns) == 1 and last_name(tu.sd(assigns[0][0]).get('q')) == 'assign':
+            # arg.assign(av + 1, av + ac): the same elements in the same order as the push_back loop
+            call, pos = assigns[0]
+            loc = tu.loc(call)
+            s_, obj, args = tu.call_parts(call)
+            AV = Poly.atom(('var', ps[1]['id'], ps[1]['name']))
+            und, bad = [], []
+            if x.objkey(obj)[0] != 'field' or len(args) != 2:
+                und.append('assign is not a range assignment to the argument vector member')
+            else:
+                first, last = x.poly_at(args[0], pos) - AV, x.poly_at(args[1], pos) - AV
+                if first.as_int() is None or (last - AC).as_int() is None:
+                    und.append('range `%s` is not [av + constant, av + ac + constant)' % tu.show(call))
+                else:
+                    if first.as_int() != 1:
+                        bad.append(('range-start', 'the first stored argument is av[%d], expected av[1] (av[0] is the program name)' % first.as_int()))
+                    if (last - AC).as_int() != 0:
+                        bad.append(('range-end', 'arguments are stored up to av[%s), expected up to av[%s)' % (last.show(), AC.show())))
+                    # guards: nothing stronger than "the range is not empty"
+                    for cn, truth, blk in x.guards(pos):
+                        nf = x.cond_at(cn, truth, x.pos_of(cn))
+                        for lf in (rels_of(nf) or [None]):
+                            ab = about(lf[1].p, last - first) if lf is not None and lf[0] == 'rel' else None
+                            if ab is None or lf[1].op != '>=' or ab[0] <= 0 or math.ceil(Fraction(-ab[1]) / ab[0]) > 1:
+                                if ab is not None and lf[1].op == '>=' and ab[0] > 0:
+                                    bad.append(('range-guard', '`%s` stores the arguments only if there are at least %d of them'
+                                                % (tu.show(cn), math.ceil(Fraction(-ab[1]) / ab[0]))))
+                                else:
+                                    und.append('cannot classify the condition `%s`' % tu.show(cn))
+            if bad:
+                for k, m in bad:
+                    ctx.violation(R, inst, m, loc, key=key + k)
+            elif und:
+                for u in und:
+                    ctx.undecided(R, inst, u, loc)
+            else:
+                ctx.ok(R, inst, 'assign(av + 1, av + ac): stores av[1] .. av[ac-1] in order', loc)
+            continue
         if len(hs) != 1 or len(pushes) != 1:
             ctx.undecided(R, inst, 'expected one loop with one push_back, found %d / %d' % (len(hs), len(pushes)), tu.fn_loc(f))
             continue
@@ -4156,6 +4374,198 @@ def lookup_via_helper(ctx, tu, f, R, inst, key, want, dup='yes'):
     return True
 
 
+def name_predicate(tu, lam):
+    """for a lambda  [..](const pair &p) { return p.first == NAME; }  ->  (field compared, decl id of NAME, negated?)"""
+    op = tu.functions.get(tu.sd(lam).get('op'))
+    body = tu.body(op) if op is not None else None
+    rets = [y for y in tu.walk(body) if y.get('kind') == 'ReturnStmt'] if body is not None else []
+    if len(rets) != 1 or not tu.kids(rets[0]):
+        return None
+    c = tu.strip(tu.kids(rets[0])[0], casts=True)
+    if c is None or c.get('kind') != 'CXXOperatorCallExpr' or tu.sd(c).get('q') not in ('std::operator==', 'std::operator!='):
+        return None
+    ks = [tu.strip(y, casts=True) for y in tu.kids(c)[1:]]
+    fi = [y for y in ks if y.get('kind') == 'MemberExpr' and y.get('name') in ('first', 'second') and
+          (tu.sd(y).get('q') or '').startswith('std::pair<')]
+    ot = [y for y in ks if y.get('kind') == 'DeclRefExpr']
+    if len(fi) != 1 or len(ot) != 1:
+        return None
+    pbase = tu.strip(tu.kids(fi[0])[0], casts=True) if tu.kids(fi[0]) else None
+    if pbase is None or pbase.get('kind') != 'DeclRefExpr' or pbase.get('referencedDecl', {}).get('id') not in [p['id'] for p in op.get('params', [])]:
+        return None
+    return fi[0].get('name'), ot[0].get('referencedDecl', {}).get('id'), tu.sd(c).get('q').endswith('!=')
+
+
+def algo_search(tu, x, e, fq):
+    """std::find_if / std::any_of over the whole parameter list with a name predicate:
+       dict(algo, reverse, field, namevar, call) or None"""
+    e = x.peel(e)
+    if e is None or e.get('kind') != 'CallExpr' or tu.sd(e).get('q') not in ('std::find_if', 'std::any_of', 'std::none_of'):
+        return None
+    args = tu.kids(e)[1:]
+    if len(args) != 3:
+        return None
+    ends = []
+    for a in args[:2]:
+        nm = None
+        for y in tu.walk(a):
+            if y.get('kind') == 'CXXMemberCallExpr' and last_name(tu.sd(y).get('q')) in ('begin', 'end', 'cbegin', 'cend', 'rbegin', 'rend',
+                                                                                          'crbegin', 'crend'):
+                s, obj, aa = tu.call_parts(y)
+                o = tu.strip(obj, casts=True) if obj is not None else None
+                if o is not None and o.get('kind') == 'MemberExpr' and tu.sd(o).get('q') == fq and not aa:
+                    nm = last_name(tu.sd(y).get('q'))
+        ends.append(nm)
+    fwd = ends[0] in ('begin', 'cbegin') and ends[1] in ('end', 'cend')
+    rev = ends[0] in ('rbegin', 'crbegin') and ends[1] in ('rend', 'crend')
+    if not (fwd or rev):
+        return None
+    lam = None
+    for y in tu.walk(args[2]):
+        if y.get('kind') == 'LambdaExpr':
+            lam = y
+    pr = name_predicate(tu, lam) if lam is not None else None
+    if pr is None:
+        return None
+    return {'algo': last_name(tu.sd(e).get('q')), 'reverse': rev, 'field': pr[0], 'namevar': pr[1], 'neg': pr[2], 'call': e}
+
+
+def lookup_via_algorithm(ctx, tu, f, R, inst, key, want, sch):
+    """getValue / hasParam written with std::find_if / std::any_of over params.  Returns True if handled."""
+    fq = URL + '::params'
+    x = FnX(tu, f)
+    found = []
+    for b, i, nd in x.g.stmts():
+        if nd.get('kind') == 'CallExpr':
+            a = algo_search(tu, x, nd, fq)
+            if a is not None:
+                found.append(a)
+    if len(found) != 1:
+        return False
+    a = found[0]
+    call = a['call']
+    loc = tu.loc(call)
+    bad, und = [], []
+    name_param = f['params'][0]['id'] if f.get('params') else None
+    if a['namevar'] != name_param or a['neg']:
+        und.append('the predicate of `%s` does not compare with the argument' % tu.show(call))
+    if a['field'] != 'first':
+        bad.append(('match-field', 'the argument is compared with `.%s` of the parameter instead of its name `.first`' % a['field']))
+    if want == 'bool':
+        rets = [nd for b, i, nd in x.g.stmts() if nd.get('kind') == 'ReturnStmt']
+        e = x.peel(tu.kids(rets[0])[0]) if len(rets) == 1 and tu.kids(rets[0]) else None
+        okb = None
+        if e is not None and e.get('id') == call.get('id') and a['algo'] in ('any_of', 'none_of'):
+            okb = a['algo'] == 'any_of'
+        elif e is not None and e.get('kind') == 'CXXOperatorCallExpr' and last_name(tu.sd(e).get('q')) in ('operator!=', 'operator==') \
+                and a['algo'] == 'find_if':
+            ks = [x.peel(y) for y in tu.kids(e)[1:]]
+            isc = [y for y in ks if y is not None and y.get('id') == call.get('id')]
+            endn = 'rend' if a['reverse'] else 'end'
+            ise = [y for y in ks if y is not None and y.get('kind') == 'CXXMemberCallExpr' and
+                   last_name(tu.sd(y).get('q')).lstrip('c') == endn]
+            if len(isc) == 1 and len(ise) == 1:
+                okb = last_name(tu.sd(e).get('q')) == 'operator!='
+        if okb is None:
+            und.append('cannot relate the result to `%s`' % tu.show(call))
+        elif not okb:
+            bad.append(('false-on-match', 'hasParam is true exactly when NO parameter matches'))
+    else:
+        if a['algo'] != 'find_if':
+            und.append('`%s` does not yield the matching element' % tu.show(call))
+        else:
+            tracked = None
+            for d, v in x.vars.items():
+                init = x.single_init(d)
+                if init is not None and x.peel(init) is not None and x.peel(init).get('id') == call.get('id'):
+                    tracked = d
+            if tracked is None:
+                und.append('the result of `%s` is not kept in a local that is set once' % tu.show(call))
+            else:
+                if not a['reverse']:
+                    if sch['dup'] == 'yes':
+                        bad.append(('first-match-wins', 'std::find_if from begin() to end() yields the FIRST parameter of that name, but the '
+                                    'constructor can store two entries with the same name (%s): for a repeated parameter the first value '
+                                    'is returned instead of the last' % sch['why']))
+                    elif sch['dup'] == 'unknown':
+                        und.append('find_if yields the first match; whether two entries of one name can be stored is not decided')
+                endn = 'rend' if a['reverse'] else 'end'
+
+                def truth_of(c):
+                    c = tu.strip(c, casts=True)
+                    neg = False
+                    while c is not None and c.get('kind') == 'UnaryOperator' and c.get('opcode') == '!':
+                        neg = not neg
+                        c = tu.strip(tu.kids(c)[0], casts=True)
+                    if c is None or c.get('kind') != 'CXXOperatorCallExpr' or last_name(tu.sd(c).get('q')) not in ('operator==', 'operator!='):
+                        return None
+                    ks = tu.kids(c)[1:]
+                    isv = [y for y in ks if x.var_of(y)[0] == tracked]
+                    ise = [y for y in ks for z in tu.walk(y) if z.get('kind') == 'CXXMemberCallExpr' and
+                           last_name(tu.sd(z).get('q')).lstrip('c') == endn and
+                           tu.sd(tu.strip(tu.call_parts(z)[1], casts=True)).get('q') == fq]
+                    if len(isv) != 1 or not ise:
+                        return None
+                    eq = last_name(tu.sd(c).get('q')) == 'operator=='
+                    return ('absent-if', eq != neg)     # the comparison is true  <=>  (absent if eq) / (found if ne)
+                for label in ('absent', 'found'):
+                    recs = []
+
+                    def transfer(blk, idx, el, st, recs=recs):
+                        if el[0] != 'S':
+                            return [st]
+                        n = tu.node(el[1])
+                        if n is None:
+                            return [st]
+                        if n.get('kind') == 'ReturnStmt':
+                            recs.append(('return', n))
+                        elif n.get('kind') == 'CXXThrowExpr':
+                            recs.append(('throw', n))
+                            return []
+                        return [st]
+
+                    def refine(blk, si, st, label=label):
+                        c = deciding_cond(tu, blk, x.g)
+                        t = truth_of(c) if c is not None else None
+                        if t is None:
+                            return [st]
+                        cond_true = (label == 'absent') == t[1]
+                        return [st] if cond_true == (si == 0) else []
+                    x.g.explore([0], transfer, refine)
+                    if not recs:
+                        und.append('no exit found for the case `%s`' % label)
+                    for kind, node in recs:
+                        if label == 'absent' and kind != 'throw':
+                            bad.append(('no-throw', 'the function can return at %s although no parameter matched: it must throw' % tu.loc(node)))
+                        elif label == 'found' and kind == 'throw':
+                            bad.append(('throws-when-found', 'the exception at %s can be reached although a parameter matched' % tu.loc(node)))
+                        elif label == 'found':
+                            e = x.peel(tu.kids(node)[0]) if tu.kids(node) else None
+                            okr = False
+                            if e is not None and e.get('kind') == 'MemberExpr' and e.get('name') in ('first', 'second'):
+                                if tracked in [y.get('referencedDecl', {}).get('id') for y in tu.walk(tu.kids(e)[0]) if y.get('kind') == 'DeclRefExpr']:
+                                    okr = True
+                                    if e['name'] != 'second':
+                                        bad.append(('returns-name', 'the name `.first` of the matching parameter is returned instead of its value `.second`'))
+                            if not okr:
+                                und.append('cannot relate the returned `%s` to the element found' % (tu.show(e) if e else '?'))
+    if bad:
+        seen = set()
+        for k, m in bad:
+            if (k, m) not in seen:
+                seen.add((k, m))
+                ctx.violation(R, inst, m, loc, key=key + k)
+    elif und:
+        for u in sorted(set(und)):
+            ctx.undecided(R, inst, u, loc)
+    else:
+        ctx.ok(R, inst, ('std::%s over %s with the name predicate: %s' % (
+            a['algo'], 'rbegin()..rend()' if a['reverse'] else 'begin()..end()',
+            ('the first hit from the back is the last entry; ' if a['reverse'] else 'at most one entry per name; ') +
+            'absent -> throw, found -> its value' if want == 'value' else 'true iff some parameter matches')), loc)
+    return True
+
+
 def check_url_lookup(ctx, tu, sch=None):
     sch = sch or url_store_scheme(tu)
     R = 'R-C18-4'
@@ -4171,6 +4581,8 @@ def check_url_lookup(ctx, tu, sch=None):
         key = '%s|%s|%s|' % (R, file, fname)
         ms = MatchScan(tu, f)
         if ms.match is None and lookup_via_helper(ctx, tu, f, R, inst, key, 'value', sch['dup']):
+            continue
+        if ms.match is None and lookup_via_algorithm(ctx, tu, f, R, inst, key, 'value', sch):
             continue
         if ms.match is None or ms.direction is None:
             ctx.undecided(R, inst, ms.why or 'cannot find the scan', tu.fn_loc(f))
@@ -4320,6 +4732,8 @@ def check_url_lookup(ctx, tu, sch=None):
         key = '%s|%s|%s|' % (R, file, fname)
         ms = MatchScan(tu, f)
         if ms.match is None and lookup_via_helper(ctx, tu, f, R, inst, key, 'bool', sch['dup']):
+            continue
+        if ms.match is None and lookup_via_algorithm(ctx, tu, f, R, inst, key, 'bool', sch):
             continue
         if ms.match is None or ms.direction is None:
             ctx.undecided(R, inst, ms.why or 'cannot find the scan', tu.fn_loc(f))
@@ -4689,6 +5103,10 @@ def check_param_order(ctx, tu, tu_w, sch=None):
             continue
         lp = CountLoop(x, hs[0])
         if not lp.ok:
+            ilp = IterLoop(x, hs[0])
+            if ilp.ok:
+                lp = ilp
+        if not lp.ok:
             ctx.undecided(R, inst, lp.why, tu.fn_loc(f))
             continue
         loc = tu.loc(lp.cond)
@@ -4728,6 +5146,33 @@ def check_param_order(ctx, tu, tu_w, sch=None):
         if lp.step != 1 or not lp.ascending_test:
             bad.append(('token-order', 'the tokens are not walked in ascending order (step %s): the URL order of the parameters is lost' % lp.step))
         # tokens vector: the loop bound is size(tokens); token 0 is the file name
+        if isinstance(lp, IterLoop):
+            # iterator loop: the file name is `*it` after fn0 increments, the loop starts after lp.first_index increments
+            fn0 = None
+            for b, i, nd in g.stmts():
+                if nd.get('kind') == 'CXXOperatorCallExpr' and last_name(tu.sd(nd).get('q')) == 'operator=' and \
+                        (tu.sd(nd).get('q') or '').startswith('std::basic_string<'):
+                    ks = tu.kids(nd)[1:]
+                    if len(ks) == 2 and x.objkey(ks[0])[0] == 'field':
+                        r = x.peel(ks[1])
+                        if r is not None and r.get('kind') == 'CXXOperatorCallExpr' and last_name(tu.sd(r).get('q')) == 'operator*' and \
+                                x.var_of(tu.kids(r)[1])[0] == lp.it and (b.id not in lp.body):
+                            fn0 = lp.index_at((b.id, i))
+            first = lp.first_index
+            if fn0 is None:
+                und.append('cannot find `member = *iterator` for the file name before the loop')
+            elif first != fn0 + 1:
+                bad.append(('params-loop-start', 'the file name is token %d but the parameters start at token %d: %s'
+                            % (fn0, first, 'a parameter is dropped' if first > fn0 + 1 else 'the file name is also stored as a parameter')))
+            if bad:
+                for k, m in bad:
+                    ctx.violation(R, inst, m, loc, key=key + k)
+            elif und:
+                for u in und:
+                    ctx.undecided(R, inst, u, loc)
+            else:
+                ctx.ok(R, inst, 'iterator loop over the tokens from token %d to end(), one store per token; %s' % (first, sch['why']), loc)
+            continue
         ba = (lp.bound_excl if lp.ascending_test else Poly.const(0)).as_atom()
         if not (isinstance(ba, tuple) and ba[0] == 'size' and ba[1][0] == 'var'):
             und.append('loop bound `%s` is not the number of tokens' % tu.show(lp.cond))
@@ -5190,10 +5635,10 @@ def run_on(ctx, tu_drv, tu_url, tu_fn, tu_common, tu_w):
                 ctx.broken('anchor %s has no body in %s' % (q, tu.unit))
     if len([f for f in tu_drv.fns(q='rkcommon::utility::split') if not f['dep']]) < 2:
         ctx.broken('expected both forms of rkcommon::utility::split in %s' % tu_drv.unit)
-    a2, a7 = check_tokens(ctx, tu_url, ['rkcommon::utility::tokenize'])
-    b2, b7 = check_tokens(ctx, tu_drv, ['rkcommon::utility::split'])
-    ctx.floor('R-C18-2', a2 + b2, 5, 'tokenize: 2 pushes; split(char): 1; split(set): 1 push with 2 length alternatives')
-    ctx.floor('R-C18-7', a7 + b7, 5, 'same push sites as R-C18-2')
+    a2, a7, af = check_tokens(ctx, tu_url, ['rkcommon::utility::tokenize'])
+    b2, b7, bf = check_tokens(ctx, tu_drv, ['rkcommon::utility::split'])
+    ctx.floor('R-C18-2', af + bf, 3, 'tokeniser functions with at least one token push analysed: tokenize, split(char), split(set)')
+    ctx.floor('R-C18-7', min(a7, 1) + min(b7, 2), 3, 'the same three tokeniser functions')
     n1, n8 = check_filename(ctx, tu_fn)
     n8 += check_url_cuts(ctx, tu_url)
     ctx.floor('R-C18-1', n1, 4, 'ext, dropExt, name, setExt search the last dot')
